@@ -441,6 +441,8 @@ func checkC19(c *Check) {
 		c.only(func(k string) bool { return strings.HasPrefix(k, "descriptorChecksum#") || strings.HasPrefix(k, "FrameDescriptor.Write#hash-range") }, func() { ruleDescriptorConstants(c, p, "R19.10") })
 		c.RuleDoc["R19.10"] = "= R13.8: the header check byte covers the whole descriptor, content size included"
 		ruleErrorOperandsWrapped(c, p, "R19.11")
+		ruleXXHZeroExtends(c, p, "R19.12")
+		c.RuleDoc["R19.12"] = "= R13.17: the descriptor checksum is computed with zero-extended input bytes (a sign-extending hash rejects every descriptor with a byte >= 0x80 in its tail and accepts a wrong check byte)"
 		c.RuleDoc["R19.11"] = "errors that become part of another error are wrapped with %w (the latched header error keeps its identity on later calls)"
 		ruleHeaderParsers(c, p, "R19.7")
 		c.RuleDoc["R19.7"] = "who parses a header: Reader.init and ValidFrameHeader (which hands its whole input to the parser)"
